@@ -165,8 +165,8 @@ EXPORT errno_t _wcrtomb_s_chk(size_t *restrict retvalp, char *restrict dest,
         }
         rc = EOK;
     } else {
-        /* errno is usually EILSEQ */
-        rc = (len <= RSIZE_MAX_STR) ? ESNOSPC : errno;
+        /* (size_t)-1: libc met an illegal wide character, else no space */
+        rc = (len == (size_t)-1) ? EILSEQ : ESNOSPC;
         if (dest) {
             /* the entire src must have been copied, if not reset dest
              * to null the string. (only with SAFECLIB_STR_NULL_SLACK)
